@@ -159,6 +159,7 @@ class Module(object):
         self.relpath = relpath
         self.src = src
         self.tree = ast.parse(src, filename=path)
+        self.tree._src = src
         from sa import alpha
         self.alpha_renames = alpha.normalise(self.tree, relpath)
         self.fn_status = getattr(self.tree, '_sa_status', {})   # key ('Class.method') -> (status, distance, limit)
